@@ -169,7 +169,8 @@ def match_neighbor(description: list[str], name: str) -> bool:
         stripped = string.strip()
         # Accept both 'neighbor *' (v4) and 'peer *' (v6) wildcards
         if stripped in ('neighbor *', 'peer *'):
-            return True
+            # any address, but the other terms of the selector still have to match
+            continue
         pattern = rf'(^|\s){re.escape(string)}($|\s|,)'
         if re.search(pattern, name) is None:
             return False
